@@ -7,6 +7,7 @@ Ops:
   wsetmax i v / wsetrate i r      =>
   wadjust i                       => <layer>
   wfeed <hex>                     => <out0> | <layer0> || <out1> | <layer1> ...
+  wnack i <n>                     => <out> | <layer>      (gotNACK on receiver i)
   late <delay-us>                 => ok           (a receiver joins in mid-stream: keyframe replay goroutine)
   latecheck <wait-ms>             => n ts:payloadhex ...   (everything written to late joiners since the last check)
 The model of a pool is n independent copies of the down-track model fed the same
@@ -22,6 +23,7 @@ structure St where
   codec : String := ""
   downs : List (State × Orc) := []
   sent : List (Nat × Bytes) := []      -- (timestamp, RTP payload) of every packet fed (oracle: from the ops)
+  cache : Cache.Ring := Cache.new 0
 
 def splitOn2 (t : List String) : List (List String) :=
   t.foldr (fun x acc => if x = "||" then [] :: acc else match acc with
@@ -32,10 +34,10 @@ def setNth {α} (l : List α) (i : Nat) (x : α) : List α := l.set i x
 
 def step (st : St) (op impl : List String) : St × Verdict :=
   match op with
-  | ["neww", codec, _, n] =>
-    match nat? n with
-    | some n => ({ codec := codec, downs := List.replicate n ({}, {}), sent := [] }, .ok)
-    | none => (st, .badop "neww")
+  | ["neww", codec, cap, n] =>
+    match nat? n, nat? cap with
+    | some n, some cap => ({ codec := codec, downs := List.replicate n ({}, {}), sent := [], cache := Cache.new cap }, .ok)
+    | _, _ => (st, .badop "neww")
   | ["wsetmax", i, v] =>
     match nat? i, int? v with
     | some i, some v =>
@@ -85,9 +87,28 @@ def step (st : St) (op impl : List String) : St × Verdict :=
       let payload := match rtpUnmarshal b with
         | .ok pkt => (b.take pkt.payloadEnd).drop pkt.payloadStart
         | .error _ => []
-      ({ st with downs := downs', sent := ((be32 b 4, payload) :: st.sent).take 4000 },
+      let cache :=
+        if b.length ≥ 12 && b.length ≤ 1504 && st.cache.entries.length > 0 then
+          (Cache.store st.cache { seqno := b.getD 2 0 * 256 + b.getD 3 0, marker := bit (b.getD 1 0) 0x80,
+                                  ts := be32 b 4, bytes := b }).1
+        else st.cache
+      ({ st with downs := downs', sent := ((be32 b 4, payload) :: st.sent).take 4000, cache := cache },
         match ov with | some m => .oracle m | none => v)
     | none => (st, .badop "wfeed")
+  | ["wnack", i, n] =>
+    match nat? i, nat? n with
+    | some i, some n =>
+      match st.downs[i]? with
+      | some (s, o) =>
+        let r := gotNack C P st.codec s st.cache n
+        let v := cmp s!"{outS { r with kfreq := false }} | {layerS (unpack r.st.word)}" (impl.filter (· ≠ "kfreq"))
+        let (outT, layT) := splitBar impl
+        let (_, sent, _) := parseOut outT
+        let ov := (nackOracle o n sent).map (fun m => m ++ s!" [receiver {i}]")
+        let o' := match parseLayer layT with | some l => { o with layer := l } | none => o
+        ({ st with downs := setNth st.downs i (r.st, o') }, match ov with | some m => .oracle m | none => v)
+      | none => (st, .badop "wnack index")
+    | _, _ => (st, .badop "wnack")
   | ["late", _] => (st, .ok)
   | ["latecheck", _] =>
     -- oracle only: each record is ts:payloadhex (or changed-during-write:ts)
